@@ -344,6 +344,13 @@ impl Sess {
         }
     }
 
+    /// A session over one of numbat's own importers (C17's real-importer sub-batch).
+    pub fn with_importer(importer: impl ModuleImporter + 'static) -> Self {
+        Sess {
+            ctx: Context::new(importer),
+        }
+    }
+
     pub fn submit(&mut self, text: &str) -> Outcome {
         self.submit_with(text, None, CodeSource::Text)
     }
